@@ -60,6 +60,14 @@ func verifyFunc(reg *Registry, pkgRel, key string, closureOrd int) (rep FuncRepo
 	fr := &frame{fc: fc, pkg: pkg, info: pkg.TypesInfo, fn: fn, sig: sig, contract: c}
 	fr.ords, fr.loopOrd, fr.litOrd, fr.callOrd = computeOrdinals(decl.Body, pkg.TypesInfo)
 	if closureOrd == 0 {
+		if note := rebindLoops(pkgRel+":"+key, c, fr.loopOrd); note != "" {
+			reg.assumptions[name+": "+note] = true
+		}
+	}
+	if note := rebindLits(pkgRel+":"+key, c, fr.litOrd); note != "" {
+		reg.assumptions[name+": "+note] = true
+	}
+	if closureOrd == 0 {
 		if k := danglingInvariant(c, fr.loopOrd); k > 0 {
 			rep.Error = fmt.Sprintf("contract-detached:invariant[%d] names a loop the function no longer has (%d loops)", k, len(fr.loopOrd))
 			return
@@ -122,6 +130,9 @@ func verifyFunc(reg *Registry, pkgRel, key string, closureOrd int) (rep FuncRepo
 		}
 		inner := &frame{fc: fc, pkg: pkg, info: pkg.TypesInfo, fn: fn, sig: lsig, contract: cc}
 		inner.ords, inner.loopOrd, inner.litOrd, inner.callOrd = computeOrdinals(lit.Body, pkg.TypesInfo)
+		if note := rebindLoops(fmt.Sprintf("%s:%s$closure%d", pkgRel, key, closureOrd), cc, inner.loopOrd); note != "" {
+			reg.assumptions[name+": "+note] = true
+		}
 		if k := danglingInvariant(cc, inner.loopOrd); k > 0 {
 			rep.Error = fmt.Sprintf("contract-detached:invariant[%d] of closure[%d] names a loop the literal no longer has (%d loops)", k, closureOrd, len(inner.loopOrd))
 			return
@@ -256,14 +267,12 @@ func freshInput(st *State, t types.Type, name string) *Value {
 // danglingInvariant returns the ordinal of an invariant / decreases clause that names a loop the body does
 // not have (0: none). A contract written for three loops does not silently apply to a body with two.
 func danglingInvariant(c *FuncContract, loopOrd map[ast.Node]int) int {
-	max := 0
+	have := map[int]bool{}
 	for _, o := range loopOrd {
-		if o > max {
-			max = o
-		}
+		have[o] = true
 	}
 	for _, cl := range c.Clauses {
-		if (cl.Kind == "invariant" || cl.Kind == "decreases" || cl.Kind == "hint") && cl.Idx > max {
+		if (cl.Kind == "invariant" || cl.Kind == "decreases" || cl.Kind == "hint") && !have[cl.Idx] {
 			return cl.Idx
 		}
 	}
